@@ -279,6 +279,7 @@ class Run(object):
         self._distinct = set()
         self.notes = {}
         self.max_violations = 300
+        self._sigcount = {}
         global CURRENT
         CURRENT = self
         self._start_watchdog()
@@ -322,8 +323,11 @@ class Run(object):
                 self.known_hits.setdefault(f["id"], [f, 0])
                 self.known_hits[f["id"]][1] += 1
                 return False
-        self.violations.append((signature, description, replay))
-        if len(self.violations) >= self.max_violations:
+        n = self._sigcount.get(signature, 0) + 1
+        self._sigcount[signature] = n
+        if n <= 12:
+            self.violations.append((signature, description, replay))
+        if len(self.violations) >= self.max_violations or sum(self._sigcount.values()) >= 20 * self.max_violations:
             raise TooManyViolations()
         return True
 
@@ -339,7 +343,12 @@ class Run(object):
         if self.violations:
             os.makedirs(rdir, exist_ok=True)
             seen = set()
-            for i, (sig, desc, rep) in enumerate(self.violations[:20]):
+            firsts, rest = [], []
+            for v in self.violations:
+                (rest if v[0] in seen else firsts).append(v)
+                seen.add(v[0])
+            seen = set()
+            for i, (sig, desc, rep) in enumerate((firsts + rest)[:40]):
                 path = os.path.join(rdir, "violation_%d.json" % i)
                 with open(path, "w") as fh:
                     json.dump({"property": self.pid, "signature": sig, "description": desc, "seed": seed(),
@@ -349,7 +358,9 @@ class Run(object):
                     print("VIOLATION property=%s replay=%s  # %s: %s" % (self.pid, path, sig, desc[:300]))
         ev = {"property_id": self.pid, "tier": self.tier, "seed": seed(), "level": self.level,
               "coverage": self.cov, "assumptions": self.assumptions, "wall_s": round(time.time() - self.t0, 2),
-              "violations": len(self.violations)}
+              "violations": sum(self._sigcount.values())}
+        if self._sigcount:
+            ev["coverage"]["violation_signatures"] = dict(sorted(self._sigcount.items()))
         ev["coverage"].update(self.notes)
         os.makedirs(os.path.join(VERIF, "evidence"), exist_ok=True)
         with open(os.path.join(VERIF, "evidence", self.pid + ".json"), "w") as fh:
@@ -357,7 +368,7 @@ class Run(object):
         self.scratch.cleanup()
         print("%s tier=%s seed=%d evaluations=%d distinct=%d states=%d traces=%d violations=%d known=%d wall=%.1fs" % (
             self.pid, self.tier, seed(), self.cov["evaluations"], self.cov["distinct_nontrivial"], self.cov["states"],
-            self.cov["traces_validated_against_impl"], len(self.violations), len(self.known_hits), time.time() - self.t0))
+            self.cov["traces_validated_against_impl"], sum(self._sigcount.values()), len(self.known_hits), time.time() - self.t0))
         return 1 if self.violations else 0
 
 
@@ -378,6 +389,7 @@ def setup_imports():
     sys.dont_write_bytecode = True
     import logging
     logging.disable(logging.CRITICAL)
+    logging.getLogger("yowsup.axolotl.manager").setLevel(logging.WARNING)   # its progress output goes to stdout when the level is NOTSET
 
 
 def shim_consonance():
